@@ -87,8 +87,12 @@ def spec_api_handlers(ck):
         ex = ck.engine(loop_bound=4, call_depth=6)
         ex.benign_havoc = harness.IRRELEVANT
         ex.no_inline = [re.compile(r'set_rules$|GlobalState::rules$')]
-        install(ex)
         st = State()
+        # what the rule list's guard dereferences to: a small list of rules (handlers may look at it -- compare, count, serialise)
+        rules_cell = st.alloc(SeqV.from_items([Ref(st.alloc(Opaque('rules::Rule', 'rule%d' % i)), ()) for i in range(2)], 'Arc<Rule>', 'vec'))
+        install(ex, guarded=lambda name, c=rules_cell: Ref(c, ()) if name == 'rules' else None)
+        # GlobalState::rules() is `self.rules.read().await`: taking the rule list's read lock
+        ex.overrides.insert(0, (re.compile(r'(?:^|::)GlobalState::rules$'), lambda ctx: Future('lock-acquire', ['rules', 'read'])))
         args = [Opaque('Extension<Arc<GlobalState>>', 'state')]
         if hname == 'post_rules':
             args.append(Opaque('Json<Vec<Arc<Rule>>>', 'body'))
@@ -268,6 +272,8 @@ def replay_plan(ob):
         return None
     if (ob.target or '') == 'api get_alive' and ob.label.startswith('C14/api/get_alive'):
         return 'locks', {'driver': 'get_alive_vs_new_connection', 'args': {}}, lambda o: o.get('new_connection_blocked') is True
+    if (ob.target or '') == 'api post_rules' and ob.label.startswith('C14/api/post_rules'):
+        return 'locks', {'driver': 'post_rules_vs_dispatch', 'args': {}}, lambda o: o.get('rule_list_readers_blocked') is True or o.get('post_returned') is False
     if (ob.target or '') == 'h11c_handshake' and ob.label.startswith('C14/http-handshake/'):
         return 'locks', {'driver': 'handshake_holds_connection_lock', 'args': {}}, lambda o: o.get('connection_lock_held_while_client_is_silent') is True
     return None
